@@ -1351,6 +1351,7 @@ func main() {
 	relFile := flag.String("rel", "", "relationship attempt paths exported by TLC from Relations.tla (json lines)")
 	graphFile := flag.String("graphs", "", "delegation graphs exported by TLC from EpochLoop.tla (json lines); one history per graph")
 	heavy := flag.Bool("identity-heavy", false, "bias the generator towards identity-changing events")
+	filterFile := flag.String("filter", "", "filter scenarios exported by TLC from Filter.tla (json lines)")
 	gasFile := flag.String("gas", "", "gas-boundary transaction lists exported by TLC from Gas.tla (json lines)")
 	fsync := flag.Bool("fsync", false, "add a replica that falls behind and catches up through the real full-sync code")
 	reorgs := flag.Bool("reorgs", false, "the network switches forks now and then (real ResetTo on every replica)")
@@ -1382,6 +1383,11 @@ func main() {
 	if *relFile != "" {
 		paths, blocks := runRelations(*relFile, seed, w)
 		fmt.Fprintf(os.Stderr, "histories=%d blocks=%d refused=0 lines=%d\n", paths, blocks, w.N)
+		return
+	}
+	if *filterFile != "" {
+		n, blocks, real := runFilter(*filterFile, seed, w)
+		fmt.Fprintf(os.Stderr, "histories=%d blocks=%d refused=0 realised=%d lines=%d\n", n, blocks, real, w.N)
 		return
 	}
 	if *gasFile != "" {
